@@ -50,11 +50,48 @@ Theorem c37_compaction_preserves_reads : forall l k, live_lookup (compact l) k =
 Proof. exact live_lookup_compact. Qed.
 Print Assumptions c37_compaction_preserves_reads.
 
+(* (full) the search's answer is not an artefact of the loop's fuel: any larger fuel
+   gives the same position. *)
+Theorem c37_search_fuel_irrelevant : forall (l : list rec) since extra,
+  let ts := map r_ts l in
+  bsearch_loop (S (length ts) + extra) ts since 0 (length ts) = bsearch_loop (S (length ts)) ts since 0 (length ts).
+Proof. exact search_fuel_irrelevant. Qed.
+Print Assumptions c37_search_fuel_irrelevant.
+
+(* (full) a backup run never invents a record: everything the backup holds afterwards
+   was in it before or is a record of the source. *)
+Theorem c37_backup_run_subset : forall S B r,
+  In r (recs (backup_run S B)) -> In r (recs B) \/ In r (recs S).
+Proof. exact backup_run_subset. Qed.
+Print Assumptions c37_backup_run_subset.
+
+(* (full) one incremental copy converges from ANY backup state that satisfies the state
+   predicate: source = P ++ A, A newer than everything the backup holds, the backup
+   serves every key A does not touch as P does — also when the backup is a strict
+   superset / re-copies records it already has. *)
+Theorem c37_incremental_converges : forall S B P A c,
+  recs S = P ++ A ->
+  (forall r, In r A -> c < r_ts r) ->
+  (forall r, In r (recs B) -> r_ts r <= c) ->
+  (forall k, latest A k = None -> live_lookup (recs B) k = live_lookup P k) ->
+  forall k, live_lookup (recs (incremental_backup S B)) k = live_lookup (recs S) k.
+Proof. exact incremental_converges. Qed.
+Print Assumptions c37_incremental_converges.
+
+(* meaning of the decidable state predicate used by the trigger *)
+Theorem c37_reflects_sound : forall st, reflects st = true ->
+  exists P A, recs (src st) = P ++ A /\
+    (forall r, In r A -> maxts (recs (bk st)) < r_ts r) /\
+    (forall k, latest A k = None -> live_lookup (recs (bk st)) k = live_lookup P k).
+Proof. exact reflects_sound. Qed.
+Print Assumptions c37_reflects_sound.
+
 (* The property at full strength — for EVERY history of writes, deletes, source
-   compactions and backup runs, after a backup run the backup serves what the source
-   serves — is false for the code as it is: *)
+   compactions and backup runs (clock readings are inputs), after a backup run the
+   backup serves what the source serves — is false for the code as it is.
+   Finding 0, with strictly increasing clock readings: *)
 Theorem c37_converges_refuted : exists h k,
-  hist_ok h = true /\
+  hist_ok h = true /\ ts_increasing h = true /\ trigger h = Some 0 /\
   read (bk (exec init (h ++ [Backup]))) k <> read (src (exec init (h ++ [Backup]))) k.
 Proof. exact converges_refuted. Qed.
 Print Assumptions c37_converges_refuted.
@@ -68,23 +105,105 @@ Theorem c37_never_recovers : forall n,
 Proof. exact never_recovers. Qed.
 Print Assumptions c37_never_recovers.
 
-(* The strongest true statement: for every history in which no source compaction
-   happens while the source holds a write or delete the backup has not pulled
-   (decidable: [trig_compacted_before_pull h = false]), after every backup run the
-   backup serves exactly the source's live blobs. *)
+(* finding 0, second form: a blob deleted on the source stays served by the backup (the
+   compaction dropped the unpulled tombstone; equal .dat sizes, no full copy) *)
+Theorem c37_delete_resurrected_refuted :
+  hist_ok witness_delete = true /\ ts_increasing witness_delete = true /\ trigger witness_delete = Some 0 /\
+  read (bk (exec init (witness_delete ++ [Backup]))) 1 = Some (1, 8) /\
+  read (src (exec init (witness_delete ++ [Backup]))) 1 = None.
+Proof. exact delete_resurrected. Qed.
+Print Assumptions c37_delete_resurrected_refuted.
+
+(* Finding 1, WITHOUT any compaction: the source's clock (time.Now().UnixNano(), stored
+   unguarded) reads the same nanosecond as the backup's last record, or steps back:
+   the search's [<=] skips the new record, for ever. *)
+Theorem c37_equal_ts_refuted :
+  hist_ok witness_equal_ts = true /\ pulled_before_each_compaction witness_equal_ts = true /\
+  trigger witness_equal_ts = Some 1 /\
+  read (bk (exec init (witness_equal_ts ++ [Backup]))) 2 = None /\
+  read (src (exec init (witness_equal_ts ++ [Backup]))) 2 = Some (2, 8).
+Proof. exact equal_ts_refuted. Qed.
+Print Assumptions c37_equal_ts_refuted.
+
+Theorem c37_clock_step_refuted :
+  hist_ok witness_clock_step = true /\ pulled_before_each_compaction witness_clock_step = true /\
+  trigger witness_clock_step = Some 1 /\
+  read (bk (exec init (witness_clock_step ++ [Backup]))) 2 = None /\
+  read (src (exec init (witness_clock_step ++ [Backup]))) 2 = Some (2, 8).
+Proof. exact clock_step_refuted. Qed.
+Print Assumptions c37_clock_step_refuted.
+
+Theorem c37_never_recovers_equal_ts : forall n,
+  read (bk (exec init (witness_equal_ts ++ Backup :: repeat Backup n))) 2 = None /\
+  read (src (exec init (witness_equal_ts ++ Backup :: repeat Backup n))) 2 = Some (2, 8).
+Proof. exact never_recovers_equal_ts. Qed.
+Print Assumptions c37_never_recovers_equal_ts.
+
+(* The strongest true statement.  [trigger h] walks the history and answers [Some 0] /
+   [Some 1] at the FIRST step that is an instance of a finding: a source compaction
+   (0) or an append whose clock reading is not newer than the backup's newest record
+   (1) after which the state predicate [reflects] (c37_reflects_sound) no longer
+   holds.  For every history without such a step — whatever the clock readings and
+   wherever the compactions are — the backup serves exactly the source's live blobs
+   after a backup run ... *)
 Theorem c37_converges_partial : forall h,
-  trig_compacted_before_pull h = false ->
+  ts_positive h = true -> trigger h = None ->
   forall k, read (bk (exec init (h ++ [Backup]))) k = read (src (exec init (h ++ [Backup]))) k.
-Proof. exact (fun h H => converges_if_pulled h (proj1 (negb_false_iff _) H)). Qed.
+Proof. exact converges_if_no_trigger. Qed.
 Print Assumptions c37_converges_partial.
 
-(* non-vacuity: a history with overwrites, deletes, two compactions (each preceded by
-   a pull), a destroy-and-full-copy and repeated runs satisfies the hypothesis and
-   ends with a non-empty, equal pair of volumes *)
-Example c37_example :
-  let h := [Write 2 1 8; Write 1 1 300; Backup; Write 1 2 17; Delete 2; Write 3 0 3; Backup; Compact;
-            Write 2 3 40; Backup; Backup; Compact; Compact; Write 1 0 1] in
-  trig_compacted_before_pull h = false /\ hist_ok h = true /\
-  map (read (bk (exec init (h ++ [Backup])))) [1; 2; 3; 4] = [Some (0, 1); Some (3, 40); Some (0, 3); None] /\
-  map (read (src (exec init (h ++ [Backup])))) [1; 2; 3; 4] = [Some (0, 1); Some (3, 40); Some (0, 3); None].
-Proof. vm_compute. repeat split. Qed.
+(* ... after EVERY backup run of the history, not only a last one *)
+Theorem c37_converges_at_every_run : forall h1 h2,
+  ts_positive (h1 ++ Backup :: h2) = true -> trigger (h1 ++ Backup :: h2) = None ->
+  forall k, read (bk (exec init (h1 ++ [Backup]))) k = read (src (exec init (h1 ++ [Backup]))) k.
+Proof. exact converges_at_every_run. Qed.
+Print Assumptions c37_converges_at_every_run.
+
+(* The history-level statement of the first version of this check (clock strictly
+   increasing, a backup run before every source compaction) still holds: *)
+Theorem c37_converges_if_pulled : forall h,
+  ts_increasing h = true -> pulled_before_each_compaction h = true ->
+  forall k, read (bk (exec init (h ++ [Backup]))) k = read (src (exec init (h ++ [Backup]))) k.
+Proof. exact converges_if_pulled. Qed.
+Print Assumptions c37_converges_if_pulled.
+
+(* non-vacuity 1: a history with overwrites, deletes, two compactions (each preceded by
+   a pull), repeated runs: both hypotheses hold, non-empty equal volumes *)
+Example c37_example : 
+  trigger example_history = None /\ hist_ok example_history = true /\
+  ts_increasing example_history = true /\ pulled_before_each_compaction example_history = true /\
+  map (read (bk (exec init (example_history ++ [Backup])))) [1; 2; 3; 4] = [Some (0, 1); Some (3, 40); Some (0, 3); None] /\
+  map (read (src (exec init (example_history ++ [Backup])))) [1; 2; 3; 4] = [Some (0, 1); Some (3, 40); Some (0, 3); None].
+Proof. exact example_ok. Qed.
+Print Assumptions c37_example.
+
+(* non-vacuity 2: histories OUTSIDE the history-level condition but without a trigger:
+   a compaction while dirty that is harmless (the unpulled key is the largest), equal
+   clock readings inside the unpulled part, and a run that really re-copies records
+   the backup already has (after its local compaction [since] is below its newest
+   timestamp) *)
+Example c37_example_harmless :
+  trigger example_harmless = None /\ hist_ok example_harmless = true /\
+  pulled_before_each_compaction example_harmless = false /\ ts_increasing example_harmless = false /\
+  (length (recs (bk (exec init (example_harmless ++ [Backup])))) > length (recs (src (exec init (example_harmless ++ [Backup])))))%nat /\
+  map (read (bk (exec init (example_harmless ++ [Backup])))) [1; 2; 3; 5; 7] =
+  map (read (src (exec init (example_harmless ++ [Backup])))) [1; 2; 3; 5; 7] /\
+  map (read (src (exec init (example_harmless ++ [Backup])))) [1; 2; 3; 5; 7] =
+  [Some (1, 8); Some (1, 8); Some (1, 8); Some (1, 8); Some (2, 8)].
+Proof. exact example_harmless_ok. Qed.
+Print Assumptions c37_example_harmless.
+
+(* non-vacuity 3: the run of example 2 left a backup of 9 records for a source of 5 (a
+   superset was re-copied); the next run takes the destroy-and-full-copy branch
+   ([dat_size bk > dat_size src], equal revisions) and converges with 5 records *)
+Example c37_example_destroy :
+  trigger example_destroy = None /\ hist_ok example_destroy = true /\
+  (let st := exec init example_destroy in
+   rev (bk st) <? rev (src st) = false /\ dat_size (src st) <? dat_size (bk st) = true /\
+   length (recs (bk st)) = 9%nat /\ length (recs (bk (step st Backup))) = 5%nat) /\
+  map (read (bk (exec init (example_destroy ++ [Backup])))) [1; 2; 3; 5; 7] =
+  [Some (1, 8); Some (1, 8); Some (1, 8); Some (1, 8); Some (2, 8)] /\
+  map (read (src (exec init (example_destroy ++ [Backup])))) [1; 2; 3; 5; 7] =
+  [Some (1, 8); Some (1, 8); Some (1, 8); Some (1, 8); Some (2, 8)].
+Proof. exact example_destroy_ok. Qed.
+Print Assumptions c37_example_destroy.
